@@ -283,6 +283,28 @@ def describe_trajectory(t):
     }
 
 
+def default_state_si(network, space):
+    """documented default state: amount of species s in cell i = density of s in the environment of i x volume of i
+    (species-major list of Q, molecules)"""
+    dn, ds = describe_network(network), describe_space(space)
+    if ds["type"] == "grid":
+        envs, vols = ds["cell_env"], [ds["cell_volume"]] * len(ds["cell_env"])
+    else:
+        envs, vols = [n["environment"] for n in ds["nodes"]], [n["volume"] for n in ds["nodes"]]
+    out = []
+    for sp in dn["species"]:
+        for e, v in zip(envs, vols):
+            out.append(Q((0, 0, 1), sp["density"][dn["environments"][e]].si * v.si))
+    return out
+
+
+def default_chemostats(network, space):
+    """documented default map: flag of species s in the environment of cell i (species-major list of 0 / 1)"""
+    dn, ds = describe_network(network), describe_space(space)
+    envs = ds["cell_env"] if ds["type"] == "grid" else [n["environment"] for n in ds["nodes"]]
+    return [int(sp["chstt"][dn["environments"][e]]) for sp in dn["species"] for e in envs]
+
+
 _DISPATCH = {
     "Species": describe_species, "Reaction": describe_reaction, "RDNetwork": describe_network,
     "RDGridSpace": describe_grid, "RDGraphSpace": describe_graph, "RDSystem": describe_system,
@@ -460,6 +482,9 @@ def selftest():
     assert [(e.kind, e.field) for e in es] == [("rdsystem", "state")] * 2, es
     s4 = RDSystem(n1, g1, chemostats=[0, 1])
     assert [(e.kind, e.field) for e in diff_entries(s1, s4)] == [("rdsystem", "chemostats")]
+    assert [float(x.si) for x in default_state_si(n1, g1)] == [5.0, 7.0] and default_chemostats(n1, g1) == [0, 0]
+    gq = RDGraphSpace([RDGraphSpaceNode(2, 0), RDGraphSpaceNode(8, 0), RDGraphSpaceNode(3, 1)], [])
+    assert [float(x.si) for x in default_state_si(n1, gq)] == [10.0, 40.0, 21.0]
     sc1 = RDScript(s1, [0, 60, 120], time_step=6, rng_seed=3, init_state_processing="none")
     sc2 = RDScript(s1, UnitArray([0, 1, 2], "min"), time_step="0.1 min", t_max="2 min", rng_seed=3,
                    init_state_processing="none")
